@@ -42,6 +42,9 @@ fn main() {
     // replays of conversation cases are shared by several properties
     if let Some(r) = &a.replay {
         let prop = argv[1].to_uppercase();
+        if r.starts_with("backpressure ") && argv[1] == "c06" { let t: Vec<&str> = r.split_whitespace().collect(); let rt = tokio::runtime::Builder::new_multi_thread().worker_threads(2).enable_all().build().unwrap();
+            let (got, want, waited) = c20::backpressure_case(&rt, t[1] == "C", t[2].parse().unwrap()); let m = got.len().min(want.len());
+            match (0..m).find(|i| got[*i] != want[*i]) { Some(pos) => { println!("FAIL [C06] {waited} writes waited; message #{pos} differs from the frame of write #{pos}"); std::process::exit(1) }, None => { println!("PASS ({waited} waited, {m} compared)"); std::process::exit(if got.len() > want.len() { 1 } else { 0 }) } } }
         if r.starts_with("aconv ") { std::process::exit(conv::replay_aconv(&prop, r)); }
         if r.len() > 7 && &r[1..7] == " conv " { std::process::exit(conv::replay_conv(&prop, r)); }
     }
